@@ -976,12 +976,15 @@ BUILDER_KWARGS = {
     ],
     "FetchRequest": [
         ("plain", False, dict(_FETCH)),
+        ("three_topics", False, dict(_FETCH, topics=[["t", [[0, 5, 1024]]], ["u", [[1, 7, 2048], [2, 9, 512]]],
+                                                     ["v", [[4, 0, 64]]]])),
         ("rack", False, dict(_FETCH, rack_id="rack-a")),
         ("read_committed", True, dict(_FETCH, isolation_level=1)),
     ],
     "OffsetRequest": [
         ("latest", False, dict(replica_id=-1, isolation_level=0, topics=[["t", [[0, -1]]]])),
         ("earliest", False, dict(replica_id=-1, isolation_level=0, topics=[["t", [[0, -2], [1, -2]]]])),
+        ("two_topics_mixed", False, dict(replica_id=-1, isolation_level=0, topics=[["t", [[0, -1]]], ["u", [[0, -2], [3, -2]]]])),
         ("timestamp", True, dict(replica_id=-1, isolation_level=0, topics=[["t", [[0, 1500000000000]]]])),
         ("read_committed", True, dict(replica_id=-1, isolation_level=1, topics=[["t", [[0, -1]]]])),
     ],
@@ -994,6 +997,8 @@ BUILDER_KWARGS = {
     "OffsetCommitRequest": [
         ("plain", False, dict(consumer_group="g", consumer_group_generation_id=3, consumer_id="m",
                               retention_time=-1, topics=[["t", [[0, 10, "meta"], [1, 11, None]]]])),
+        ("two_topics", False, dict(consumer_group="g", consumer_group_generation_id=3, consumer_id="m",
+                                   retention_time=-1, topics=[["t", [[0, 10, "meta"]]], ["u", [[2, 7, None], [5, 8, "x"]]]])),
     ],
     "OffsetFetchRequest": [
         ("parts", False, dict(consumer_group="g", partitions=[["t", [0, 1]]])),
@@ -1204,6 +1209,26 @@ def exec_choice(case):
         out.fail("layout", bname + ":built", {"struct": sname, "variant": case["variant"], "wire_version": hv,
                                               "error": str(e), "frame": _hex(frame)})
     if _body is not None:
+        # the topics of the request carry their own partitions, each exactly once (builders re-shape the nested lists
+        # per version)
+        kw_topics = _kwargs(case["kwargs"]).get("topics")
+        if isinstance(kw_topics, list) and isinstance(_body.get("topics"), list) and kw_topics and \
+                all(isinstance(t, (list, tuple)) and len(t) >= 2 and isinstance(t[1], (list, tuple)) for t in kw_topics):
+            def _pid(e):
+                return e[0] if isinstance(e, (list, tuple)) else e
+            want_shape = [(t[0], [_pid(e) for e in t[1]]) for t in kw_topics]
+            got_shape = []
+            for t in _body["topics"]:
+                if isinstance(t, dict):
+                    name = t.get("topic", t.get("name"))
+                    ps = t.get("partitions")
+                    if isinstance(ps, list):
+                        got_shape.append((name, [(e.get("partition", e.get("index")) if isinstance(e, dict) else e) for e in ps]))
+            comparable = all(n is not None and all(isinstance(x, int) for x in ps) for n, ps in got_shape) and \
+                all(all(isinstance(x, int) for x in ps) for _n, ps in want_shape)
+            if comparable and len(got_shape) == len(_body["topics"]) and got_shape != want_shape:
+                out.fail("layout", bname + ":built_value:topics", {"struct": sname, "variant": case["variant"], "wire_version": hv,
+                                                                  "argument": want_shape, "on_the_wire": got_shape})
         # every scalar argument of the builder that the chosen version has a field of the same name for sits in
         # that field (a builder branch that puts an argument into its neighbour's slot still yields a decodable frame)
         for k, v in _kwargs(case["kwargs"]).items():
